@@ -412,8 +412,31 @@ impl log::Log for Sink {
 }
 static SINK: Sink = Sink;
 
+/// 0 = no logger installed in this process yet, 1 = the harness sink, 2 = the program's own logger (-l)
+static LOGGER: std::sync::atomic::AtomicU8 = std::sync::atomic::AtomicU8::new(0);
+
+/// Installs a logger for this run the way `main` would: with `-l <file>` the program's own
+/// `initialize_logger` (env_logger writing to that file, level from RUST_LOG), otherwise the harness sink.
+/// A process can only ever have one logger; later runs in the same process keep the first one.
+fn install_logger(error_log: &Option<String>, level: &str) -> Result<(), String> {
+    use std::sync::atomic::Ordering::SeqCst;
+    if LOGGER.load(SeqCst) == 0 {
+        match error_log {
+            Some(path) => {
+                std::env::set_var("RUST_LOG", if level == "off" { "error" } else { level });
+                squitterator::initialize_logger(path).map_err(|e| format!("{}", e))?;
+                LOGGER.store(2, SeqCst);
+            }
+            None => {
+                let _ = log::set_logger(&SINK);
+                LOGGER.store(1, SeqCst);
+            }
+        }
+    }
+    Ok(())
+}
+
 pub fn process_init() {
-    let _ = log::set_logger(&SINK);
     log::set_max_level(log::LevelFilter::Off);
     std::panic::set_hook(Box::new(|info| {
         let loc = info.location().map(|l| format!("{}:{}", l.file(), l.line())).unwrap_or_default();
@@ -476,7 +499,15 @@ pub fn run(script: &Script) -> History {
     }
     simchrono::sim_reset(T0_US);
     simchrono::sim_set_tick_us(script.tick_us);
-    log::set_max_level(level_of(&script.log_level));
+    // main(): the logger comes first
+    if let Err(e) = install_logger(&args.error_log, &script.log_level) {
+        return empty(Outcome::ArgsRejected(format!("logger: {}", e)));
+    }
+    if LOGGER.load(std::sync::atomic::Ordering::SeqCst) == 2 {
+        if args.error_log.is_some() { log::set_max_level(level_of(if script.log_level == "off" { "error" } else { &script.log_level })); } else { log::set_max_level(log::LevelFilter::Off); }
+    } else {
+        log::set_max_level(level_of(&script.log_level));
+    }
     *PANIC_MSG.lock().unwrap_or_else(|e| e.into_inner()) = None;
 
     let planes = Planes::new();
